@@ -282,6 +282,13 @@ def entry_nodes(rng, rel, kind, tag, link_target=None):
             nodes.append({'p': cur, 't': 'd',
                           'm': rng.choice([0o755, 0o700, 0o555 | 0o200])})
         return nodes
+    if kind == 'tree_fifo':
+        # a directory holding a named pipe: rename(2) moves it like anything
+        # else, a cross-device copy (shutil.copytree) refuses special files
+        return [{'p': rel, 't': 'd', 'm': 0o755},
+                {'p': rel + '/a-regular-file', 't': 'f', 'c': '%s first\n' % tag},
+                {'p': rel + '/pipe', 't': 'p', 'm': 0o600},
+                {'p': rel + '/z-last', 't': 'f', 'c': '%s last\n' % tag}]
     if kind.startswith('link'):
         return [{'p': rel, 't': 'l', 'to': link_target or 'nothing-%s' % tag}]
     raise ValueError(kind)
